@@ -1,7 +1,13 @@
 import Sml.Props.C02
+import Sml.Lemmas.C02Pos
 /- Axiom audit for property C02: only propext / Classical.choice / Quot.sound may appear. -/
 #print axioms Sml.C02.sound
 #print axioms Sml.C02.sound_stream
 #print axioms Sml.C02.sound_decodeAll
 #print axioms Sml.C02.sound_iter
 #print axioms Sml.C02.sound_reader
+#print axioms Sml.C02.sound_iter_pos
+#print axioms Sml.C02.sound_iter_pos_take
+#print axioms Sml.C02.sound_reader_pos
+#print axioms Sml.C02.sound_decodeAll_pos
+#print axioms Sml.C02.sinceReset_spec
